@@ -3,5 +3,7 @@ import QeepProps.C11z
 import QeepProps.C11w
 import QeepProps.C11v
 import QeepProps.C11u
+import QeepProps.C11t
+import QeepProps.C11s
 /-! C11 — all property theorems: `C11`, `C11x` (one whole training step at model level for any loss and any number of
-weights) and `C11z` (the step on an FC layer end to end, unconditional for leaf parameters and a data input). `C11w`: the training LOOP — the invariant `FCInv`, `fc_step_inv` (a step keeps it) and `fc_training_loop` (any number of steps succeeds and is gradient descent). `C11v`: a two-layer network FC → Sigmoid → FC end to end (`mlp_backprop`). `C11u`: the walk through the two-layer network succeeds (`mlp_backprop_ok`, either mode), hence `mlp_backprop_leaf` and one whole SGD step on it, unconditionally (`mlp_train_step_leaf`). -/
+weights) and `C11z` (the step on an FC layer end to end, unconditional for leaf parameters and a data input). `C11w`: the training LOOP — the invariant `FCInv`, `fc_step_inv` (a step keeps it) and `fc_training_loop` (any number of steps succeeds and is gradient descent). `C11v`: a two-layer network FC → Sigmoid → FC end to end (`mlp_backprop`). `C11u`: the walk through the two-layer network succeeds (`mlp_backprop_ok`, either mode), hence `mlp_backprop_leaf` and one whole SGD step on it, unconditionally (`mlp_train_step_leaf`). `C11t` (nothing the optimizer half of a step creates has a back edge, no older tensor changes) and `C11s` (the training LOOP of the two-layer network: `MLPInv`, `mlp_step_inv`, `mlp_training_loop` — any number of steps succeeds). -/
